@@ -529,7 +529,7 @@ impl<P: Send + 'static> A<P> {{
                 f"rsactor::spawn::<A<u64>>(A {{ base: {base}, last: None }})")
 
     if flavor == "concrete_gmsg":
-        h = handler_fn(attr_text, "on_msg", "GMsg { v, fail, extra: _ }", "GMsg<&'static str>",
+        h = handler_fn(attr_text, "on_msg", "GMsg { v, fail, extra: _ }", "GMsg<(u8, char)>",
                        "ar: &ActorRef<A>", v, "self.base + v", "fail",
                        pre="        let _ = ar.identity();\n")
         code = f'''
@@ -543,7 +543,7 @@ impl A {{
 {h}
 {sync("self.base")}}}
 '''
-        return (code, "A", "GMsg<&'static str>", 'GMsg { v, fail, extra: "e" }',
+        return (code, "A", "GMsg<(u8, char)>", "GMsg { v, fail, extra: (1u8, 'e') }",
                 f"rsactor::spawn::<A>(A {{ base: {base} }})")
 
     if flavor == "methods":
